@@ -250,8 +250,11 @@ impl<L: LangExt, N: Analysis<L> + 'static> Run<L, N> where N::Data: std::fmt::De
         let re = ext.extract(h, &self.eg);
         let cost = ext.get_best_cost::<N>(&self.eg.find_applied_id(h));
         let lk = lookup_rec_expr(&re, &self.eg);
-        format!(",\"extract\":{{\"cf\":{},\"cost\":{},\"term\":{},\"lookup_some\":{},\"lookup_eq\":{}}}", jstr(name), cost, self.show_rec(&re), lk.is_some(),
-            match &lk { Some(a) => self.eg.eq(a, h).to_string(), None => "null".to_string() })
+        let fr = extract::<L, N, CF>(h, &self.eg);
+        let lk2 = lookup_rec_expr(&fr, &self.eg);
+        format!(",\"extract\":{{\"cf\":{},\"cost\":{},\"term\":{},\"lookup_some\":{},\"lookup_eq\":{},\"free_term\":{},\"free_lookup_some\":{},\"free_lookup_eq\":{}}}", jstr(name), cost, self.show_rec(&re), lk.is_some(),
+            match &lk { Some(a) => self.eg.eq(a, h).to_string(), None => "null".to_string() }, self.show_rec(&fr), lk2.is_some(),
+            match &lk2 { Some(a) => self.eg.eq(a, h).to_string(), None => "null".to_string() })
     }
     fn mmatch(&self, text: &str, parts: &[(String, String)]) -> String {
         let Some(eg0) = (&self.eg as &dyn std::any::Any).downcast_ref::<EGraph<L, ()>>() else { return ",\"mmatch\":null".to_string() };
